@@ -93,5 +93,110 @@ package sem
 //@   ensures [C03.valid] result != nil && !(v.PreRelease == "" || in(preRelease, v.PreRelease)) ==> errIs(result, ErrInvalidPreRelease)
 //@   ensures [C03.valid] result != nil && (v.PreRelease == "" || in(preRelease, v.PreRelease)) ==> errIs(result, ErrInvalidBuild)
 
+// ---- C06 / C14: comparison -----------------------------------------------------------------------------------------
+//@ func comparePreReleaseSuffix
+//@   pure
+//@   ensures [C14.range] -1 <= result && result <= 1
+//@   ensures [C14.eq] shorter == longer ==> result == 0
+
+//@ func comparePreRelease
+//@   pure
+//@   requires len(shorter) <= len(longer)
+//@   ensures [C14.range] -1 <= result && result <= 1
+//@   ensures [C14.eq] shorter == longer ==> result == 0
+//@   loop 0 invariant 0 <= i && i <= len(shorter)
+//@   loop 0 invariant forall k in 0..i :: shorter[k] == longer[k]
+
+//@ func DefaultComparePreRelease
+//@   pure
+//@   ensures [C06.release] len(a) == 0 ==> result == ite(len(b) == 0, 0, 1)
+//@   ensures [C06.release] len(a) > 0 && len(b) == 0 ==> result == -1
+//@   ensures [C14.range] -1 <= result && result <= 1
+//@   ensures [C14.eq] a == b ==> result == 0
+
+// three-way comparison of the cores as unsigned 64-bit numbers
+//@ pure func cmp3(a uint64, b uint64) int = ite(a > b, 1, ite(a < b, -1, 0))
+//@ pure func coreCmp(v Ver, w Ver) int = ite(v.Major != w.Major, cmp3(v.Major, w.Major), ite(v.Minor != w.Minor, cmp3(v.Minor, w.Minor), cmp3(v.Patch, w.Patch)))
+
+//@ func (Ver).Compare
+//@   pure
+//@   opt ignores Build
+//@   ensures [C06.core] coreCmp(v, ver) != 0 ==> result == coreCmp(v, ver)
+//@   ensures [C06.release] coreCmp(v, ver) == 0 && v.PreRelease == "" ==> result == ite(ver.PreRelease == "", 0, 1)
+//@   ensures [C06.release] coreCmp(v, ver) == 0 && v.PreRelease != "" && ver.PreRelease == "" ==> result == -1
+//@   ensures [C14.range] -1 <= result && result <= 1
+//@   ensures [C14.eq] coreCmp(v, ver) == 0 && v.PreRelease == ver.PreRelease ==> result == 0
+
+//@ func (Ver).Latest
+//@   ensures [C14.latest] result == ite(v.Compare(ver) == -1, ver, v)
+
+//@ func (Ver).NextMajor
+//@   mode bv
+//@   panics_iff [C14.next] v.Major == 18446744073709551615
+//@   ensures [C14.next] result.Major == v.Major+1 && result.Minor == 0 && result.Patch == 0 && result.PreRelease == "" && result.Build == ""
+//@ func (Ver).NextMinor
+//@   mode bv
+//@   panics_iff [C14.next] v.Minor == 18446744073709551615
+//@   ensures [C14.next] result.Major == v.Major && result.Minor == v.Minor+1 && result.Patch == 0 && result.PreRelease == "" && result.Build == ""
+//@ func (Ver).NextPatch
+//@   mode bv
+//@   panics_iff [C14.next] v.Patch == 18446744073709551615
+//@   ensures [C14.next] result.Major == v.Major && result.Minor == v.Minor && result.Patch == v.Patch+1 && result.PreRelease == "" && result.Build == ""
+
+// the parsed value of an accepted text, as a specification term
+//@ pure func verOf(w bytes) Ver = Ver{Major: decVal(part(w, 1)), Minor: decVal(part(w, 2)), Patch: decVal(part(w, 3)), PreRelease: part(w, 4), Build: part(w, 5)}
+
+// string helpers: an error exactly when either text is invalid for that helper, otherwise what the value methods give
+//@ func CompareVersion
+//@   ensures [C14.helper C06.helper] r1 == nil <==> accepts(a, formVersion) && accepts(b, formVersion)
+//@   ensures [C14.helper C06.helper] r1 == nil ==> r0 == verOf(a).Compare(verOf(b))
+//@ func CompareTag
+//@   ensures [C14.helper C06.helper] r1 == nil <==> accepts(a, formTag) && accepts(b, formTag)
+//@   ensures [C14.helper C06.helper] r1 == nil ==> r0 == verOf(a).Compare(verOf(b))
+//@ func Compare
+//@   ensures [C14.helper C06.helper] r1 == nil <==> accepts(a, formVersion|formTag) && accepts(b, formVersion|formTag)
+//@   ensures [C14.helper C06.helper] r1 == nil ==> r0 == verOf(a).Compare(verOf(b))
+//@ func LatestVersion
+//@   ensures [C14.helper C06.helper] r1 == nil <==> accepts(a, formVersion) && accepts(b, formVersion)
+//@   ensures [C14.helper C06.helper] r1 == nil ==> r0 == ite(verOf(a).Compare(verOf(b)) == -1, verOf(b), verOf(a))
+//@ func LatestTag
+//@   ensures [C14.helper C06.helper] r1 == nil <==> accepts(a, formTag) && accepts(b, formTag)
+//@   ensures [C14.helper C06.helper] r1 == nil ==> r0 == ite(verOf(a).Compare(verOf(b)) == -1, verOf(b), verOf(a))
+//@ func Latest
+//@   ensures [C14.helper C06.helper] r1 == nil <==> accepts(a, formVersion|formTag) && accepts(b, formVersion|formTag)
+//@   ensures [C14.helper C06.helper] r1 == nil ==> r0 == ite(verOf(a).Compare(verOf(b)) == -1, verOf(b), verOf(a))
+
+// C14 lemmas, over the contracts only.
+// build metadata never matters; reflexive; next-* results are plain releases strictly above the receiver
+//@ func lemmaC14Build
+//@   lemma
+//@   requires v.Major == w.Major && v.Minor == w.Minor && v.Patch == w.Patch && v.PreRelease == w.PreRelease
+//@   ensures [C14.build C06.build] r0 == r1 && r2 == r3
+//@ func lemmaC14Reflexive
+//@   lemma
+//@   ensures [C14.refl] result == 0
+//@ func lemmaC14Next
+//@   lemma
+//@   requires v.Major != 18446744073709551615 && v.Minor != 18446744073709551615 && v.Patch != 18446744073709551615
+//@   ensures [C14.next] r0 == 1 && r1 == 1 && r2 == 1
+//@ func lemmaC14LatestNeverLower
+//@   lemma
+//@   ensures [C14.latest] (l == v || l == w) && (c == -1 ==> l == w) && (c != -1 ==> l == v)
+
 var _ = []any{DefaultParser[string], DefaultParser[[]byte], Parse[string], Parse[[]byte], ParseVersion[string], ParseVersion[[]byte], ParseTag[string], ParseTag[[]byte],
-	unmarshalText[string], unmarshalText[[]byte]}
+	unmarshalText[string], unmarshalText[[]byte], comparePreRelease[string, string],
+	CompareVersion[string, string], CompareTag[string, string], Compare[string, string], LatestVersion[string, string], LatestTag[string, string], Latest[string, string]}
+
+func lemmaC14Build(v, w, x Ver) (int, int, int, int) {
+	return v.Compare(x), w.Compare(x), x.Compare(v), x.Compare(w)
+}
+
+func lemmaC14Reflexive(v Ver) int { return v.Compare(v) }
+
+func lemmaC14Next(v Ver) (int, int, int) {
+	return v.NextMajor().Compare(v), v.NextMinor().Compare(v), v.NextPatch().Compare(v)
+}
+
+func lemmaC14LatestNeverLower(v, w Ver) (l Ver, c int) {
+	return v.Latest(w), v.Compare(w)
+}
